@@ -38,6 +38,11 @@ type SeqSpec struct {
 	// so a defect that makes an observer change hidden state (a read cache
 	// that is never invalidated) is reached. Requires a non-destructive Check.
 	CheckEveryStep bool
+	// Deepen (opt-in, thorough tier only): once the declared depth is complete,
+	// left-over budget is spent on deeper levels. Only for harnesses whose
+	// single ExploreSeq call is the last thing they do - the extra levels use
+	// the whole remaining budget.
+	Deepen bool
 	// NonTrivial decides whether a path counts toward distinct_nontrivial;
 	// default: length >= 2.
 	NonTrivial func(cfg string, path []string) bool
@@ -89,7 +94,7 @@ func ExploreSeq(r *Run, spec SeqSpec) {
 	}
 	totalStates := 0
 	maxDepthDone := map[string]int{}
-	for _, cfg := range spec.Configs {
+	for ci, cfg := range spec.Configs {
 		seen := map[[16]byte]struct{}{}
 		frontier := []node{{}}
 		// initial state
@@ -110,9 +115,20 @@ func ExploreSeq(r *Run, spec SeqSpec) {
 			totalStates++
 		}
 		depthDone := 0
-		for depth := 1; depth <= spec.Depth && len(frontier) > 0; depth++ {
+		for depth := 1; len(frontier) > 0; depth++ {
+			// Thorough tier: once the declared depth is complete for this
+			// configuration, left-over budget is spent on deeper levels (at most
+			// its fair share per configuration). The claim stays the declared
+			// depth; a deeper level that completes is recorded, one that is cut
+			// by the budget is not, and neither makes the run "incomplete".
+			extra := depth > spec.Depth
+			if extra && (!r.Thorough() || !spec.Deepen || !r.shareLeft(ci, len(spec.Configs))) {
+				break
+			}
 			if r.Expired() {
-				r.Incomplete(fmt.Sprintf("budget expired: config %q completed to depth %d", cfg, depthDone))
+				if !extra {
+					r.Incomplete(fmt.Sprintf("budget expired: config %q completed to depth %d", cfg, depthDone))
+				}
 				break
 			}
 			type succ struct {
@@ -176,8 +192,10 @@ func ExploreSeq(r *Run, spec SeqSpec) {
 					mu.Unlock()
 				}
 			})
-			if r.Expired() {
-				r.Incomplete(fmt.Sprintf("budget expired: config %q completed to depth %d", cfg, depthDone))
+			if r.Expired() || (extra && !r.shareLeft(ci, len(spec.Configs))) {
+				if !extra {
+					r.Incomplete(fmt.Sprintf("budget expired: config %q completed to depth %d", cfg, depthDone))
+				}
 				break
 			}
 			// deterministic representative: smallest path per key
@@ -198,7 +216,10 @@ func ExploreSeq(r *Run, spec SeqSpec) {
 			if len(r.samples) < r.sampleCap && len(next) > 0 {
 				r.Sample(map[string]any{"config": cfg, "ops": next[len(next)/2].path})
 			}
-			if spec.MaxStates > 0 && len(next) > spec.MaxStates && depth < spec.Depth {
+			if spec.MaxStates > 0 && len(next) > spec.MaxStates && (depth < spec.Depth || extra) {
+				if extra {
+					break // no capped levels beyond the declared depth
+				}
 				Shuffle(r, next)
 				r.Incomplete(fmt.Sprintf("config %q: frontier at depth %d capped %d -> %d (all sequences to depth %d covered)", cfg, depth, len(next), spec.MaxStates, depth))
 				next = next[:spec.MaxStates]
